@@ -22,8 +22,13 @@ def merge_attributes(node: AbbreviationNode, config: Config):
                 else:
                     merge_declarations(prev, attr, config)
             else:
-                # Create new attribute instance so we can safely modify it later
+                # Create new attribute instance so we can safely modify it later.
+                # Its value gets other values merged into it in place: detach it from
+                # the source attribute, which may be shared with other nodes
+                # (attributes of a snippet alias go to every top-level node of the snippet)
                 lookup[attr_name] = attr.copy()
+                if isinstance(attr.value, list):
+                    lookup[attr_name].value = attr.value[:]
                 attributes.append(lookup[attr_name])
         else:
             attributes.append(attr)
